@@ -78,6 +78,14 @@ CLAIMS = {
          "any number of cell/face types symbolic."),
    design='6 C18', technique='contract-based deductive verification over the clang AST with uninterpreted-function models of tinyxml2 and std::sto*, exceptions as outcomes, SMT',
    note=NOTE_COMMON + " tinyxml2 and std::stod/stoi are modelled, not verified."),
+ 'C19': dict(
+   text=("Slice of the property decided by contracts on the real code: file number = floor(t/S)+1 and a file pair written exactly when it changes "
+         "(with the no-gap lemma for dt <= S in exact arithmetic), what run_iteration writes when (statistics every 50th iteration, mesh output "
+         "considered once, one integration step, counter +1), the exit condition of the main loop and the final statistics write, and which "
+         "cell attribute each statistics column formats. A bounded native run of the real numbering code in doubles for listed (dt,S) pairs "
+         "is reported separately and labelled bounded; it exhibits the recorded known finding (gaps when S == dt)."),
+   design='6 C19', technique='contract-based deductive verification (SMT with to_int) on the clang AST; bounded native stand-in for the floating-point numbering, labelled bounded',
+   note=NOTE_COMMON + " File contents, row structure and printed precision (iostream / sprintf) are not decided."),
  'C20': dict(
    text=("Contracts on the real grid templates as instantiated by the repository: update_dimensions (every point of the declared box, as a free "
          "variable, is indexable and maps to an existing voxel; voxel count without 32-bit wrap; grid emptied), index functions (formula, range, "
